@@ -314,6 +314,19 @@ def run(ctx, R, tier):
     R.check(okh, "C05-R1b", "_handleConnection|loop-ending-error-only-for-destroyed-server-socket", "accept() errors end the multiplex loop only for EBADF/ENOTSOCK (the server socket itself is gone)",
             hc.loc(hraises[0].ast) if hraises else hc.loc(),
             "an accept() failure that a client can provoke (TLS garbage, descriptor exhaustion) raises out of the request loop: the daemon stops serving everybody")
+    # the configured communication timeout is put on the accepted connection (not on the listening socket): without it a peer that stops mid-message strands its worker
+    for fq in ("Pyro5.svr_threads.SocketServer_Threadpool.events", "Pyro5.svr_multiplex.SocketServer_Multiplex._handleConnection"):
+        g = ctx.fn(fq)
+        acc = [st for st, t, k in stores_in(g.node) if isinstance(st.value, ast.Call) and isinstance(st.value.func, ast.Attribute) and st.value.func.attr == "accept"]
+        accepted = None
+        if acc:
+            tg = acc[0].targets[0]
+            accepted = tg.elts[0].id if isinstance(tg, ast.Tuple) and isinstance(tg.elts[0], ast.Name) else (tg.id if isinstance(tg, ast.Name) else None)
+        sts = [c for c in walk_no_nested(g.node) if isinstance(c, ast.Call) and isinstance(c.func, ast.Attribute) and c.func.attr == "settimeout"]
+        ok = accepted is not None and len(sts) >= 1 and all(unparse(c.func.value) == accepted and c.args and unparse(c.args[0]).endswith("COMMTIMEOUT") for c in sts)
+        R.check(ok, "C05-R1b", "%s|timeout-on-the-accepted-socket" % g.name, "config.COMMTIMEOUT is set on the socket that accept() returned", g.loc(sts[0]) if sts else g.loc(),
+                "settimeout is applied to `%s`, not to the accepted connection `%s`: with COMMTIMEOUT configured a client that stops in the middle of a message holds its worker "
+                "(or the refusing accept loop) for ever" % (unparse(sts[0].func.value) if sts else "?", accepted))
     # ---------------------------------------------------------------- R8
     from ..engine.dataflow import possibly_undefined
     # named exceptions, confirmed by reading; the variable is identified by how it is defined / where it is read, not by its name
